@@ -1022,3 +1022,115 @@ def replay_bounded_decode(model, obligation, content, kw):
     ecis = [s for s in d.segments if s.mode == 'eci']
     bad = d.payload != want or d.problems or ((q.is_micro or not k.get('eci')) and ecis)
     return dict(confirmed=bool(bad), call=call, detail='decoded %r, content bytes %r, problems %r, ECI headers %d' % (d.payload[:60], want[:60], d.problems[:2], len(ecis)))
+
+
+# ---------------------------------------------------------------- C14 replays
+def replay_encode_args(model, obligation, error, version, mode, mask, micro, eci):
+    """try real contents of every kind with these options: only ValueError may escape"""
+    contents = ['1', '12345678', 'A', 'HELLO WORLD', 'a', 'äöü', '点', b'\x00\xff', 0, 123456, 'x' * 30, '9' * 40]
+    m = model or {}
+    for c in contents:
+        call = 'segno.make(%r, error=%r, version=%r, mode=%r, mask=%r, micro=%r, eci=%r)' % (c, error, version, mode, mask, micro, eci)
+        try:
+            q = segno.make(c, error=error, version=version, mode=mode, mask=mask, micro=micro, eci=eci)
+        except ValueError:
+            continue
+        except Exception as ex:
+            return dict(confirmed=True, call=call, detail='raised %r' % (ex,))
+        if 'refused' in (obligation or ''):
+            return dict(confirmed=True, call=call, detail='accepted (%s) although the arguments are invalid or an excluded combination' % q.designator)
+        if 'mask_in_range' in (obligation or '') and not (0 <= q.mask < (4 if q.is_micro else 8)):
+            return dict(confirmed=True, call=call, detail='mask %r used in a %s symbol' % (q.mask, q.designator))
+    return dict(confirmed=False, detail='only ValueError observed for the tried contents')
+
+
+def replay_spelling(model, obligation, a, b):
+    import ast
+    ka, kb = ast.literal_eval(a), ast.literal_eval(b)
+    for c in ('12345', 'HELLO', 'hello world'):
+        def run(kw):
+            try:
+                q = segno.make(c, **kw)
+                return (q.designator, q.mask, [bytes(r) for r in q.matrix])
+            except ValueError as ex:
+                return ('ValueError',)
+            except Exception as ex:
+                return ('raised', repr(ex))
+        ra, rb = run(ka), run(kb)
+        if ra != rb or ra[0] in ('raised',):
+            return dict(confirmed=True, call='segno.make(%r, **%r) vs **%r' % (c, ka, kb), detail='%r vs %r' % (ra[:2], rb[:2]))
+    return dict(confirmed=False, detail='same symbols')
+
+
+def replay_sequence_args(model, obligation, content, version, count, mode):
+    import ast
+    c, v, n, m = (ast.literal_eval(x) for x in (content, version, count, mode))
+    call = 'segno.make_sequence(%s, version=%r, symbol_count=%r, mode=%r)' % (content[:40], v, n, m)
+    try:
+        seq = segno.make_sequence(c, version=v, symbol_count=n, mode=m)
+        k = len(seq)
+    except ValueError as ex:
+        if 'documented_refusals' in (obligation or '') or 'only_ValueError' in (obligation or ''):
+            return dict(confirmed=False, call=call, detail='ValueError: %s' % ex)
+        return dict(confirmed=False, call=call, detail='refused: %s' % ex)
+    except Exception as ex:
+        return dict(confirmed=True, call=call, detail='raised %r' % (ex,))
+    if 'documented_refusals' in (obligation or ''):
+        return dict(confirmed=True, call=call, detail='accepted, %d symbols' % k)
+    bad = not 1 <= k <= 16 or (n is not None and v is None and k != n)
+    return dict(confirmed=bad, call=call, detail='%d symbols' % k)
+
+
+def replay_serialiser_arg(model, obligation, kind, wit=None):
+    import ast
+    import io
+    w = ast.literal_eval(wit) if wit else {}
+    kw = {}
+    for key in ('scale', 'border'):
+        if key in w:
+            kw[key] = w[key]
+    for key in ('dark', 'light'):
+        if key in w:
+            kw[key] = ast.literal_eval(w[key])
+    if 'kw' in w:
+        kw.update(w['kw'])
+    k = w.get('kind', kind)
+    qr = segno.make('C14', micro=False)
+    out = io.StringIO() if k.lower() in ('txt', 'xpm', 'xbm', 'tex', 'ans', 'eps') else io.BytesIO()
+    call = 'segno.make("C14", micro=False).save(<stream>, kind=%r, **%r)' % (k, kw)
+    try:
+        qr.save(out, kind=k, **kw)
+        outcome = 'accepted'
+    except ValueError as ex:
+        outcome = 'ValueError'
+    except Exception as ex:
+        outcome = repr(ex)
+    want_refusal = 'refused' in (obligation or '')
+    if want_refusal:
+        bad = outcome != 'ValueError'
+    elif 'accepted_or_ValueError' in (obligation or ''):
+        bad = outcome not in ('accepted', 'ValueError')
+    else:
+        bad = outcome != 'accepted'
+    return dict(confirmed=bad, call=call, detail='outcome: %s' % outcome)
+
+
+def replay_cli(model, obligation, argv, want):
+    import ast
+    import os
+    import subprocess
+    import sys
+    import tempfile
+    a = ast.literal_eval(argv)
+    tmp = tempfile.mkdtemp(prefix='c14r')
+    a = [os.path.join(tmp, os.path.basename(x)) if (os.sep in x) else x for x in a]
+    env = dict(os.environ, PYTHONPATH=os.environ.get('PYVC_REPO', '/repo'))
+    p = subprocess.run([sys.executable, '-m', 'segno.cli'] + a, capture_output=True, text=True, env=env, cwd=tmp)
+    import shutil
+    if want == 0:
+        outs = [x for x in a if x.startswith(tmp)]
+        bad = p.returncode != 0 or (outs and a[0] != '--seq' and not os.path.exists(outs[0]))
+    else:
+        bad = p.returncode != 1 or 'Traceback' in p.stderr or not p.stderr.strip()
+    shutil.rmtree(tmp, ignore_errors=True)
+    return dict(confirmed=bool(bad), call='python -m segno.cli %s' % ' '.join(a), detail='exit status %d, stderr %r' % (p.returncode, p.stderr[-200:]))
